@@ -97,6 +97,36 @@ Theorem C01_one_bounded_correction_per_round : forall cfg D nref npeer rs, in_i6
 Proof. exact run_history. Qed.
 Print Assumptions C01_one_bounded_correction_per_round.
 
+(* Histories with the case analysis of the property.  `history` (Proofs/SyncProofs.v) threads the two measurement
+   slices through the rounds: in every round the aggregated offsets ro, po of the two sides are what
+   measureOffsetToRefClks computes from this round's timely answers and the values left from earlier rounds (failed,
+   late and missing sources keep an old value), exactly one Do c and one Sleep are issued, and c obeys `corr_cases`:
+     no sources: c = 0;
+     reference clocks only: c = the bounded reference offset, within the reference cap;
+     peers only: beyond the cutoff c = the bounded peer offset, within the peer cap; within the cutoff c = 0;
+     both: peers within the cutoff -> c = the bounded reference offset, WITHIN THE REFERENCE CAP;
+           peers beyond the cutoff -> c = the midpoint of the two bounded values, within the peer cap whenever the two
+           bounded values are less than 2^63 apart (Midpoint cannot wrap).
+   For every admissible configuration, every positive Drift, all source counts and every history. *)
+Theorem C01_history_case_analysis : forall cfg D nref npeer rs, in_i64 (c_interval cfg) -> in_i64 D ->
+  inadmissible cfg = false -> 0 < D ->
+  exists evs,
+    run cfg D nref npeer rs = (false, EDrift (c_interval cfg) D :: EDrift (c_interval cfg) D :: evs) /\ history cfg (cap (c_ref cfg) D) (cap (c_peer cfg) D) nref npeer rs (repeat 0 nref) (repeat 0 (peer_slots npeer)) evs.
+Proof. exact run_history_cases. Qed.
+Print Assumptions C01_history_case_analysis.
+
+(* the case analysis for one round and all aggregated offsets *)
+Theorem C01_round_case_analysis : forall cfg rm pm nref npeer ro po, cap_ok rm -> cap_ok pm -> fle rm pm = true ->
+  in_i64 ro -> in_i64 po -> corr_cases cfg rm pm nref npeer ro po (Sync.round cfg rm pm nref npeer ro po).
+Proof. exact round_cases. Qed.
+Print Assumptions C01_round_case_analysis.
+
+(* timemath.Midpoint is exact and stays between its arguments when their difference is an int64 *)
+Theorem C01_midpoint_no_wrap : forall x y, in_i64 x -> in_i64 y -> Z.abs (y - x) <= max_i64 ->
+  midpoint x y = x + Z.quot (y - x) 2 /\ Z.abs (midpoint x y) <= Z.max (Z.abs x) (Z.abs y).
+Proof. exact midpoint_nowrap. Qed.
+Print Assumptions C01_midpoint_no_wrap.
+
 (* One round, for all aggregated offsets of the whole int64 range: the correction is the bounded
    reference value, the bounded peer value, their midpoint, or 0, according to who contributes *)
 Theorem C01_round_cases : forall cfg rm pm nref npeer ro po, cap_ok rm -> cap_ok pm -> in_i64 ro -> in_i64 po ->
